@@ -42,6 +42,7 @@ pub fn ev_kind(ev: &Ev) -> String {
         Ev::Raw(_, h, _) | Ev::RawAt(_, h, _) => format!("frame-{}", frame_kind(h)),
         Ev::ClockNow(_) => "clock".into(),
         Ev::Macro(_) => "macro".into(),
+        Ev::Observe => "observer-getters".into(),
     }
 }
 
